@@ -463,6 +463,48 @@ def run(tier, seed):
                     res.violate(msg, {"check": "include", "files": {k.replace(root, "<root>"): v for k, v in files.items()}, "main": "<root>/main.xbb", "inlined": inlined})
                 os.chdir(scratch)
                 shutil.rmtree(root, ignore_errors=True)
+            # include file names of every shape (no extension, other extensions, dotted directories): the file NAMED is the file
+            # read, also when a sibling with a similar name (<name>.xbb, the name without its extension, ...) holds another program
+            names = ["phase", "lib/ops", "lib.v2/ops", "phase.bb", "phase.txt", "phase.xbb.bak", "Phase.XBB", "sub/phase.", "phase.xbb.xbb", "x.y/z.w/ops", ".hidden", "sub/.ops"]
+            rng.shuffle(names)
+            for i, nm in enumerate(names[: (6 if quick else len(names))]):
+                if len(res.violations) >= 5:
+                    break
+                root = os.path.join(scratch, "E%d" % i)
+                g1, g2, g3 = rng.sample(GATES, 3)
+                dn, bn = os.path.dirname(nm), os.path.basename(nm)
+                stem = os.path.splitext(bn)[0]
+                sibs = {bn + ".xbb", stem, stem + ".xbb", bn.lower(), bn.rstrip("."), bn + ".bb"} - {bn, ""}
+                files = {os.path.join(root, "mid", nm): "name Phase\nversion 1.0\n\n%s({a}) | 0\n" % g1}
+                for sb in sorted(sibs):
+                    files[os.path.join(root, "mid", dn, sb)] = "name Phase\nversion 1.0\n\n%s(0.5) | 0\n%s({a}) | 0\n" % (g2, g3)
+                files[os.path.join(root, "mid", "mz.xbb")] = 'name Mz\nversion 1.0\ninclude "%s"\n\nPhase(a={t}) | 1\nPhase(a=0.125) | 0\n' % nm
+                files[os.path.join(root, "main.xbb")] = 'name main\nversion 1.0\ninclude "mid/mz.xbb"\n\nMz(t=0.75) | [3, 2]\nVac | 0\n'
+                inlined = "name main\nversion 1.0\n\n%s(0.75) | 2\n%s(0.125) | 3\nVac | 0\n" % (g1, g1)
+                write_files(files)
+                main_path = os.path.join(root, "main.xbb")
+                impl.reset_tables()
+                msg = None
+                try:
+                    os.chdir(rng.choice([root, scratch, os.path.join(root, "mid")]))
+                    p = blackbird.load(main_path)
+                    impl.reset_tables()
+                    if not close_digest(ops_digest(p), ops_digest(blackbird.loads(inlined))):
+                        msg = "include \"%s\" next to similarly named files: calling the included program differs from inlining the file named: %s" % (nm, ops_digest(p)[:3])
+                except Exception as e:  # noqa: BLE001
+                    msg = "include \"%s\": loading fails: %s: %s" % (nm, type(e).__name__, str(e)[:100])
+                mo = observe.model_load(model, main_path, cwd=root, files=files)
+                if msg is None and mo["out"] == "ok":
+                    d = observe.cmp_prog(mo["v"], p, stats, lax_kind=True)
+                    if d:
+                        msg = "program differs from the model's inlining: " + "; ".join(d[:3])
+                res.case(files[main_path] + "name-shape" + nm, True, None)
+                res.count("include-file-name-shapes")
+                if msg:
+                    ok = False
+                    res.violate(msg, {"check": "include", "files": {k.replace(root, "<root>"): v for k, v in files.items()}, "main": "<root>/main.xbb", "inlined": inlined})
+                os.chdir(scratch)
+                shutil.rmtree(root, ignore_errors=True)
             # "nested to any depth": chains of 20 and 40 includes (beyond the fuel of the model's loader: judged against hand inlining)
             for depth in ((20,) if quick else (20, 40, 80)):
                 root = os.path.join(scratch, "N%d" % depth)
